@@ -286,6 +286,21 @@ def body_history(case):
             labels.add("kept")
     if len(hist) >= 3:
         labels.add("len>=3")
+    if case.get("preempt"):
+        # two objects of this configuration throw equally sized batches in overlapping calls (two user threads, each
+        # with its own geometry object): harness-owned schedule, see nssverif/interleave.py
+        from ..interleave import check_overlapping
+
+        g1, g2 = RegionGeom(conf), RegionGeom(conf)
+        u1 = np.array(hist[-1], dtype=np.float64).T.copy()
+        u2 = (u1[:, ::-1] * 0.83 + 0.09).copy()
+
+        def thrown(g, u_):
+            g.throw(u_.copy())
+            return gc.snapshot_throw(g, s_list, WITH_INTEGRAL)
+
+        if check_overlapping(lambda: thrown(g1, u1), lambda: thrown(g2, u2), case["preempt"], f"RegionGeom.throw + accessors on two objects ({u1.shape[1]} events each)", as_bytes=lambda r: [r[k] for k in sorted(r)]):
+            labels.add("overlapping_throws_two_objects")
     return labels
 
 def _nt(labels):
@@ -315,7 +330,7 @@ SUBCHECKS = [
     ),
     SubCheck(
         "history",
-        st.fixed_dictionaries({"cfg": gc.geom_config(), "batches": gc.batches(), "s": st.lists(dist, min_size=1, max_size=4), "bad": st.lists(st.sampled_from(gc.BAD_THROWS), max_size=3)}),
+        st.fixed_dictionaries({"cfg": gc.geom_config(), "batches": gc.batches(), "s": st.lists(dist, min_size=1, max_size=4), "bad": st.lists(st.sampled_from(gc.BAD_THROWS), max_size=3), "preempt": st.one_of(st.just([]), st.lists(st.one_of(st.integers(0, 40), st.integers(0, 300)), min_size=1, max_size=3))}),
         body_history,
         lambda labels: "repeated_size" in labels and "kept" in labels,
         {"quick": 400, "thorough": 20000},
